@@ -356,7 +356,7 @@ impl Session {
     /// Verification hook: `set_session_mode`.
     #[cfg(rs_matter_verif)]
     pub fn verif_set_session_mode(&mut self, mode: SessionMode) {
-        self.set_session_mode(mode)
+        self.mode = mode;
     }
 
     /// Verification hook: `pre_send`.
